@@ -70,9 +70,12 @@ def eval_family(kind, key, sizes, exact=False):
             o, s = F.measure(text, cap=STEP_CAP)
             runs += 1
             if i == 0 and o == "ok":
-                # the measure must be a function of the text: once more
+                # the measure must be a function of the text: once more - for
+                # the single-construct families with the reference observer
+                # (sys.setprofile), which must see the same number of calls
                 runs += 1
-                if F.measure(text, cap=STEP_CAP) != (o, s):
+                ref = "setprofile" if kind != "pair" else None
+                if F.measure(text, cap=STEP_CAP, method=ref) != (o, s):
                     res["status"] = "nondeterministic"
         else:
             s1, s2 = steps[-2], steps[-1]
@@ -325,9 +328,13 @@ def run(tier):
     # phase 1: every construct alone; phase 2: the pairs (a pair containing a
     # construct that is super-linear on its own is attributed to it, so the
     # origin analysis is not repeated for it)
+    import time
+
+    t_ph = [time.time()]
     results = []
     for part in core.pmap(_work, [[f] for f in fams], chunksize=1):
         results.extend(part)
+    t_ph.append(time.time())
     single_sig = {}
     for r in results:
         if r["kind"] == "nest" and r["status"] == "superlinear":
@@ -335,6 +342,7 @@ def run(tier):
     pairs = [p[:4] + (not (p[1][0] in single_sig or p[1][1] in single_sig),) for p in pairs]
     for part in core.pmap(_work, core.chunked(pairs, 8), chunksize=1):
         results.extend(part)
+    t_ph.append(time.time())
 
     lex_names = list(F.LEXER_FAMILIES)
     lex_results = []
@@ -348,6 +356,7 @@ def run(tier):
         if r["status"] != "linear":
             lex_rerun.append(r["name"])
             lex_results[i] = eval_lexer_family(r["name"])
+    t_ph.append(time.time())
     hist = {}
     members = accepted = nontrivial = 0
     funcs = set()
@@ -441,6 +450,8 @@ def run(tier):
     R.set("productions_reached", len([f for f in funcs if f.startswith("_parse_")]))
     R.set("functions_reached", len(funcs))
     R.set("bounds", bounds)
+    R.set("phase_seconds", dict(zip(("singles", "pairs", "lexer"),
+                                    (round(b - a, 1) for a, b in zip(t_ph, t_ph[1:])))))
     R.assumptions += [
         "work = number of Python call events inside c_parser.py, c_lexer.py and ast_transforms.py "
         "(exactly reproducible; re-measured once per family); loops that make no calls (scope-stack "
